@@ -749,6 +749,21 @@ def entry_cases(tier):
                     cases.append({"part": "entry", "ep": "modekey", "det": "ccd", "key": f"{rm}.{k2}",
                                   "kcls": f"misspelt-component-{min(ci, 1) if ci < len(comps) - 1 else 'last'}",
                                   "value": val, "rm": rm})
+    # the same running-mode keys with the value given as TEXT (what a command-line override delivers): the setting must
+    # hold what the text denotes
+    for rm in ("exposure", "observation"):
+        for key, val in MODE_KEYS:
+            cases.append({"part": "entry", "ep": "modekey", "det": "ccd", "key": f"{rm}.{key}", "kcls": "valid",
+                          "value": val, "rm": rm, "text": True})
+    # the command-line entry point pyxel.run(<YAML file>, override=["key=text", ...]) (= `pyxel run file -o key=text`)
+    for rm in ("exposure", "observation"):
+        for key, txt in CLI_KEYS:
+            cases.append({"part": "entry", "ep": "cli", "det": "ccd", "key": key.replace("<mode>", rm), "kcls": "valid",
+                          "value": txt, "rm": rm})
+        for key in ("detector.environment.temperatur", "pipeline.photon_collection.p1.arguments.ii",
+                    "pipeline.photon_collection.px.arguments.i", "<mode>.readout.non_destructiv", "<mode>.pipeline_sed"):
+            cases.append({"part": "entry", "ep": "cli", "det": "ccd", "key": key.replace("<mode>", rm), "kcls": "misspelt",
+                          "value": "5", "rm": rm})
     for c in cases:
         if c["ep"] == "modekey":
             c["target"] = "running-mode"
@@ -886,6 +901,126 @@ MODE_KEYS = [("readout.non_destructive", True), ("readout.times", [1.0, 2.0, 3.0
              ("pipeline_seed", 77), ("outputs.custom_dir_name", "foo_")]
 
 
+CLI_KEYS = [("detector.environment.temperature", "150"), ("detector.environment.temperature", "150.5"),
+            ("detector.characteristics.quantum_efficiency", "0.25"),
+            ("pipeline.photon_collection.p1.arguments.i", "41"), ("pipeline.photon_collection.p1.arguments.i", "4.5"),
+            ("pipeline.photon_collection.p1.arguments.i", "[1, 2, 3]"), ("pipeline.photon_collection.p1.arguments.i", "abc"),
+            ("pipeline.photon_collection.p1.arguments.d.k", "9"), ("pipeline.charge_generation.q1.enabled", "False"),
+            ("<mode>.readout.non_destructive", "True"), ("<mode>.readout.times", "[1.0, 2.0, 3.0]"),
+            ("<mode>.readout.start_time", "0.5"), ("<mode>.pipeline_seed", "77")]
+
+_CLI_YAML = """
+ccd_detector:
+  geometry: {row: 2, col: 3, total_thickness: 10.0, pixel_vert_size: 2.0, pixel_horz_size: 0.5}
+  environment: {temperature: 100.0}
+  characteristics: {quantum_efficiency: 0.5, charge_to_volt_conversion: 1.0e-3, pre_amplification: 4.0,
+                    full_well_capacity: 1000, adc_bit_resolution: 16, adc_voltage_range: [0.0, 8.0]}
+pipeline:
+  photon_collection:
+    - name: p1
+      func: props.c08_dotted_keys.cli_probe
+      enabled: true
+      arguments: {i: 3, d: {k: 1, r: 2.5}}
+  charge_generation:
+    - name: q1
+      func: props.c08_dotted_keys.cli_probe
+      enabled: true
+      arguments: {i: 7}
+"""
+
+
+def cli_probe(detector, **kw):
+    """probe of the command-line cases: records its typed arguments and what the detector / its clock look like"""
+    probes.TRACE.append({"name": detector.current_running_model_name, "kw": probes.tagged(kw),
+                         "temperature": detector.environment.temperature,
+                         "qe": detector.characteristics.quantum_efficiency,
+                         "non_destructive": bool(detector.non_destructive_readout), "times": [float(t) for t in detector.readout_properties.times],
+                         "start": float(detector.readout_properties.start_time), "step": int(detector.pipeline_count)})
+
+
+def _run_cli(case, bad):
+    """pyxel.run(<file>, override=[...]): every model call must see exactly the overridden setting, or the call is refused
+    before any model ran"""
+    import pyxel
+
+    key, txt, valid, rm = case["key"], case["value"], case["kcls"] == "valid", case["rm"]
+    tmp = tempfile.mkdtemp(prefix="vp_c08c_")
+    try:
+        if rm == "exposure":
+            head = "exposure:\n  readout: {times: [1.0, 2.0]}\n"
+            nruns = 1
+        else:
+            head = ("observation:\n  with_dask: false\n  readout: {times: [1.0, 2.0]}\n  parameters:\n"
+                    "    - {key: pipeline.charge_generation.q1.arguments.i, values: [7, 8]}\n")
+            nruns = 2
+        cfg = os.path.join(tmp, "cfg.yaml")
+        with open(cfg, "w") as fh:
+            fh.write(head + _CLI_YAML)
+        probes.reset()
+        exc = None
+        try:
+            pyxel.run(cfg, override=[f"{key}={txt}"])
+        except Exception as e:  # noqa: BLE001
+            exc = e
+        trace = list(probes.TRACE)
+        if not valid:
+            if exc is None:
+                bad("invalid-accepted", f"pyxel.run(file, override=['{key}={txt}']) raised nothing; {len(trace)} model call(s) ran")
+            elif trace:
+                bad("rejected-after-running", f"command-line override raised {type(exc).__name__} only after {len(trace)} model call(s)")
+            return ["invalid", type(exc).__name__ if exc else None, len(trace)]
+        if key.endswith("q1.enabled") and rm == "observation":
+            # the sweep addresses an argument of the model this override switches off: refusing is the specified behaviour
+            if exc is None:
+                bad("invalid-accepted", f"override {key}={txt} disables the swept model, yet nothing was raised; {len(trace)} call(s)")
+            return ["disabled-swept", type(exc).__name__ if exc else None]
+        if exc is not None:
+            bad("valid-refused", f"pyxel.run(file, override=['{key}={txt}']) raised {type(exc).__name__}: {str(exc)[:200]}")
+            return ["valid-refused", type(exc).__name__]
+        want = literal(txt)
+        exp = {"p1.i": 3, "p1.d": {"k": 1, "r": 2.5}, "q1": True, "temperature": 100.0, "qe": 0.5, "non_destructive": False,
+               "times": [1.0, 2.0], "start": 0.0}
+        seg = key.split(".")
+        if key.endswith("p1.arguments.i"):
+            exp["p1.i"] = want
+        elif key.endswith("arguments.d.k"):
+            exp["p1.d"] = {"k": want, "r": 2.5}
+        elif key.endswith("q1.enabled"):
+            exp["q1"] = want
+        elif seg[-1] == "temperature":
+            exp["temperature"] = want
+        elif seg[-1] == "quantum_efficiency":
+            exp["qe"] = want
+        elif seg[-1] == "non_destructive":
+            exp["non_destructive"] = want
+        elif seg[-1] == "times":
+            exp["times"] = want
+        elif seg[-1] == "start_time":
+            exp["start"] = want
+        steps = len(exp["times"])
+        nmodels = 2 if exp["q1"] else 1
+        if len(trace) != nruns * steps * nmodels:
+            bad("wrong-models-ran", f"{len(trace)} model calls after command-line override {key}={txt}, expected {nruns} run(s) x "
+                f"{steps} step(s) x {nmodels} model(s)")
+            return ["ran", len(trace)]
+        for t in trace:
+            kw = _untag(t["kw"])
+            if t["name"] == "p1" and not (same(kw.get("i"), exp["p1.i"]) and same(kw.get("d"), exp["p1.d"])):
+                bad("wrong-arguments", f"after command-line override {key}={txt} model p1 received {kw}, expected i={exp['p1.i']!r} "
+                    f"d={exp['p1.d']!r}")
+                break
+            for f in ("temperature", "qe", "non_destructive", "times", "start"):
+                if not same(t[f], exp[f]):
+                    bad("wrong-value", f"after command-line override {key}={txt} the models saw {f}={t[f]!r}, the text denotes "
+                        f"{exp[f]!r}")
+                    return ["ran", len(trace)]
+        if seg[-1] == "pipeline_seed":
+            pass        # (observable only through random draws; the text form is judged by the 'modekey' cases)
+        return ["ran", len(trace)]
+    finally:
+        shutil.rmtree(tmp, ignore_errors=True)
+
+
 def _run_modekey(case, det, pipe, bad):
     """override keys addressed to the running mode"""
     import pyxel
@@ -893,6 +1028,7 @@ def _run_modekey(case, det, pipe, bad):
     from pyxel.outputs import ExposureOutputs, ObservationOutputs
 
     key, val, valid = case["key"], case["value"], case["kcls"] == "valid"
+    ov = (val if isinstance(val, str) else repr(val)) if case.get("text") else val
     tmp = tempfile.mkdtemp(prefix="vp_c08m_")
     try:
         if case["rm"] == "exposure":
@@ -906,10 +1042,11 @@ def _run_modekey(case, det, pipe, bad):
         before = snapshot.snapshot([mode.readout, mode.outputs, mode.pipeline_seed])
         exc = None
         try:
-            pyxel.run_mode(mode, det, pipe, override_dct={key: val}, with_inherited_coords=True)
+            pyxel.run_mode(mode, det, pipe, override_dct={key: ov}, with_inherited_coords=True)
         except Exception as e:  # noqa: BLE001
             exc = e
         trace = list(probes.TRACE)
+        val_shown = ov
         if not valid:
             if exc is None:
                 d = snapshot.diff(before, snapshot.snapshot([mode.readout, mode.outputs, mode.pipeline_seed]))
@@ -919,7 +1056,7 @@ def _run_modekey(case, det, pipe, bad):
                 bad("rejected-after-running", f"override raised {type(exc).__name__} only after {len(trace)} model call(s)")
             return ["invalid", type(exc).__name__ if exc else None, len(trace)]
         if exc is not None:
-            bad("valid-refused", f"override {key}={val!r} raised {type(exc).__name__}: {str(exc)[:200]}")
+            bad("valid-refused", f"override {key}={ov!r} raised {type(exc).__name__}: {str(exc)[:200]}")
             return ["valid-refused", type(exc).__name__]
         sub = key.split(".", 1)[1]
         obj = mode
@@ -927,7 +1064,7 @@ def _run_modekey(case, det, pipe, bad):
             obj = getattr(obj, part)
         got = obj.tolist() if hasattr(obj, "tolist") else obj
         if not same(got, val):
-            bad("wrong-value", f"after override {key}={val!r} the running mode holds {show(got)}")
+            bad("wrong-value", f"after override {key}={ov!r} the running mode holds {show(got)}")
         steps = 3 if sub == "readout.times" else 2
         nmodels = len({t["name"] for t in trace}) or 1
         if len(trace) != nruns * steps * nmodels:
@@ -1004,6 +1141,8 @@ def run_entry(case):
             outcome = _run_nested(case, det, pipe, before, bad)
         elif ep == "modekey":
             outcome = _run_modekey(case, det, pipe, bad)
+        elif ep == "cli":
+            outcome = _run_cli(case, bad)
         elif ep == "textalias":
             outcome = _run_textalias(case, bad)
         elif ep == "override-cal":
